@@ -244,6 +244,20 @@ func (w *Writer) SyncAndClose() error {
 }
 
 func Write(path string, offset int64, newVersion Version, opts Params, index []Item) (retErr error) {
+	// write to a temporary file and rename it in, so a crash never leaves a partial index
+	finalPath := path
+	path = finalPath + ".write"
+	if err := os.Remove(path); err != nil && !errors.Is(err, os.ErrNotExist) {
+		return fmt.Errorf("write index remove stale temp: %w", err)
+	}
+	defer func() {
+		if retErr == nil {
+			if err := os.Rename(path, finalPath); err != nil {
+				retErr = fmt.Errorf("write index rename: %w", err)
+			}
+		}
+	}()
+
 	w, err := OpenWriter(path, offset, newVersion, opts)
 	if err != nil {
 		return err
